@@ -415,16 +415,11 @@ Fixpoint indices_of (t : N) (from : N) (types : list N) : list N :=
 
 Definition nthN {A : Type} (l : list A) (i : N) (d : A) : A := nth (N.to_nat i) l d.
 
-(* corners of all cells of type t: the corner count of the FIRST cell of that type is used for every cell of the
-   type (_vtu_reader.py:49-64); offs0 = [0] ++ offsets *)
+(* corners of all cells of type t (_vtu_reader.py:49-70, as repaired by the fix of F-C05b): every cell takes the corners between
+   its own two offsets — the fast path for a uniform corner count and the per-cell path for polygons with differing corner
+   counts give the same rows; offs0 = [0] ++ offsets *)
 Definition cells_of_type (conn : list N) (offs0 : list N) (types : list N) (t : N) : list (list N) :=
-  let idx := indices_of t 0 types in
-  match idx with
-  | [] => []
-  | i0 :: _ =>
-      let nc := nthN offs0 (i0 + 1) 0 - nthN offs0 i0 0 in
-      map (fun i => takeN nc (dropN (nthN offs0 i 0) conn)) idx
-  end.
+  map (fun i => takeN (nthN offs0 (i + 1) 0 - nthN offs0 i 0) (dropN (nthN offs0 i 0) conn)) (indices_of t 0 types).
 
 Definition regroup_cells (conn offsets types : list N) : list (N * list (list N)) :=
   map (fun t => (t, cells_of_type conn (0 :: offsets) types t)) (unique_sorted types).
